@@ -97,6 +97,27 @@ class Ctx:
         self.harness_errors.append(what)
         print(f'HARNESS-ERROR: property={self.pid} {what}')
 
+    def merge(self, sub):
+        for k, v in sub.queries.items():
+            self.queries[k] = self.queries.get(k, 0) + v
+        self.solver_s += sub.solver_s
+        for s in sub.samples:
+            self.sample(s)
+        for key, nt in sub.cases:
+            self.case(key, nt)
+        self.programs += sub.programs
+        for w in sub.inconclusive:
+            self.note_inconclusive(w)
+        for w in sub.harness_errors:
+            self.harness_error(w)
+        for key, what, replay in sub.violations:
+            self.violation(key, what, replay)
+        for k, v in sub.extra.items():
+            if isinstance(v, (int, float)):
+                self.extra[k] = self.extra.get(k, 0) + v
+            elif isinstance(v, list):
+                self.extra.setdefault(k, []).extend(v)
+
     # ---- findings ------------------------------------------------------------------------------------------------
     def violation(self, key, what, replay):
         """A violation already reproduced against the real code. `key` identifies the failing input."""
@@ -162,6 +183,75 @@ class Ctx:
         if self.harness_errors:
             return EXIT_HARNESS
         return EXIT_OK
+
+
+class Sub:
+    """Picklable recorder with Ctx's tally API, filled in a worker process and merged by Ctx.merge()."""
+    def __init__(self, pid, tier, seed):
+        self.pid, self.tier, self.seed = pid, tier, seed
+        self.queries = {}
+        self.solver_s = 0.0
+        self.samples = []
+        self.cases = []
+        self.programs = 0
+        self.inconclusive = []
+        self.harness_errors = []
+        self.violations = []
+        self.extra = {}
+
+    def q(self, verdict, seconds=0.0, n=1):
+        self.queries[verdict] = self.queries.get(verdict, 0) + n
+        self.solver_s += seconds
+
+    def sample(self, s, limit=12):
+        if len(self.samples) < limit:
+            self.samples.append(s)
+
+    def case(self, key, nontrivial=True):
+        self.cases.append((key if isinstance(key, str) else stable_hash(key), nontrivial))
+
+    def note_inconclusive(self, what):
+        self.inconclusive.append(what)
+
+    def harness_error(self, what):
+        self.harness_errors.append(what)
+
+    def violation(self, key, what, replay):
+        self.violations.append((key, what, replay))
+
+
+def _pmap_worker(args):
+    fn, pid, tier, seed, item = args
+    sub = Sub(pid, tier, seed)
+    try:
+        sub.result = fn(sub, item)
+    except HarnessError as e:
+        sub.result = None
+        sub.harness_error(f'{item!r:.200}: {e}')
+    except Exception as e:
+        import traceback
+        sub.result = None
+        sub.harness_error(f'{item!r:.200}: {type(e).__name__}: {e} :: {traceback.format_exc()[-600:]}')
+    return sub
+
+
+def pmap(ctx, fn, items, procs=None):
+    """Run fn(sub, item) for every item in forked workers; merge tallies into ctx in item order.
+    fn must be a module-level function; items must be picklable. Returns the list of fn results."""
+    import multiprocessing as mp
+    items = list(items)
+    procs = procs or min(int(os.environ.get('VERIF_PROCS', '14')), max(1, len(items)))
+    args = [(fn, ctx.pid, ctx.tier, ctx.seed, it) for it in items]
+    if procs <= 1 or len(items) <= 1:
+        subs = [_pmap_worker(a) for a in args]
+    else:
+        with mp.get_context('fork').Pool(procs, maxtasksperchild=50) as pool:
+            subs = pool.map(_pmap_worker, args, chunksize=1)
+    out = []
+    for sub in subs:
+        ctx.merge(sub)
+        out.append(sub.result)
+    return out
 
 
 def _key_match(pattern, key):
